@@ -3,6 +3,7 @@ package keylab
 import (
 	"bytes"
 	"fmt"
+	"os"
 	"path/filepath"
 	"sort"
 	"strconv"
@@ -61,6 +62,7 @@ type worldSpec struct {
 	Subs   []string    `json:"-"`
 	Types  []string    `json:"types"`
 	Rounds int         `json:"rounds"`
+	Act    int         `json:"act_types_per_pair"` // quick tier: operate on this many types per (table,key); all types are populated; 0 = all
 	Stream int64       `json:"stream"`
 	pairs  [][2]string // (table, key)
 	bigN   int
@@ -88,6 +90,7 @@ type world struct {
 	recent  []stepRec
 	stopAt  int // replay: stop after this step (0 = run all)
 	failed  int
+	sigSeen map[string]int
 
 	nontrivial map[string]struct{}
 	counts     map[string]int64
@@ -98,7 +101,9 @@ func (w *world) count(k string, n int64) { w.counts[k] += n }
 
 func openWorld(s sink, scratch string, spec worldSpec) (*world, error) {
 	dir := filepath.Join(scratch, fmt.Sprintf("w%d-%s-%s-%s", spec.ID, spec.Kind, spec.Engine, spec.Policy))
-	l, err := smlab.Open(smlab.Opts{Engine: spec.Engine, ExpirePolicy: spec.Policy, Dir: dir})
+	// everything stays in the memtable: a pebble store that has flushed sstables re-reads index blocks on every Get
+	// (the per-step full logical dump is thousands of Gets)
+	l, err := smlab.Open(smlab.Opts{Engine: spec.Engine, ExpirePolicy: spec.Policy, Dir: dir, WriteBufferSize: 96 << 20, BlockCache: 64 << 20})
 	if err != nil {
 		return nil, err
 	}
@@ -421,6 +426,14 @@ func (w *world) doStep(st *stepT) bool {
 			switch {
 			case o.Panic:
 				w.fail(st, "decoder-panic/"+o.Codec, reply, fmt.Sprintf("decoder panicked on engine key %q written by the real write path: %s", trunc(e.K, 120), o.Err), "", "")
+			case w.compact && o.Type == "bitmap" && o.Kind == "elem" && strings.Contains(st.Op, "setbit") && o.Table == t0.Table && o.KeyPart == t0.Key:
+				// BitSetV2 "convert old data to new": the segments of the legacy KV value are written
+				// under the UNVERSIONED key (everything else under wait_compact embeds the versioned key)
+				w.count("legacy_bitmap_conversion_unversioned_segments", 1)
+				if o.HasVer {
+					w.fail(st, "foreign-raw-key-touched/setbit-legacy-conversion", reply,
+						fmt.Sprintf("SETBIT on %s converts the legacy KV value into segments under the unversioned key %s, which IS the versioned key of bitmap %s:%s version %d: engine key %q", t0.tkey, qs(t0.Key), qs(o.Table), qs(o.Key), o.Ver, trunc(e.K, 120)), "", "")
+				}
 			case o.Err != "" && !(o.Type == "bitmap" && strings.HasPrefix(o.Err, "unversioned")):
 				w.fail(st, "codec-roundtrip/"+o.Codec, reply, fmt.Sprintf("engine key %q (%s by the step) does not decode: %s", trunc(e.K, 120), ch.how(), o.Err), "", "")
 			case !st.allowedOwner(*o):
@@ -483,9 +496,19 @@ func (w *world) doStep(st *stepT) bool {
 
 	// ---- range operations must remove everything they address ----
 	if st.Removes && !isErr {
-		for _, t := range st.Targets {
+		for ti, t := range st.Targets {
+			if !t.TableWide && !wasPresent[ti] {
+				continue // nothing to remove: the key did not exist (for the read path) before the step
+			}
 			if t.TableWide {
 				w.checkTableRemoved(st, t, cur, reply)
+				for _, p := range w.spec.pairs {
+					if p[0] == t.Table && ((t.RangeFrom == nil && t.RangeTo == nil) || inRange(p[1], t.RangeFrom, t.RangeTo)) {
+						for _, typ := range w.spec.Types {
+							w.removal[tkey{typ, p[0], p[1]}] = st.Op
+						}
+					}
+				}
 				continue
 			}
 			if he := findEnt(cur, headKeyOf(t.tkey)); he != nil {
@@ -596,8 +619,16 @@ func sameList(a, b []string) bool {
 
 func (w *world) fail(st *stepT, sig, reply, summary, before, after string) {
 	w.failed++
-	if w.failed > 20 {
+	if w.sigSeen == nil {
+		w.sigSeen = map[string]int{}
+	}
+	w.sigSeen[sig]++
+	if w.sigSeen[sig] > 2 || len(w.sigSeen) > 40 {
 		w.s.Count("alarms_suppressed_in_world", 1)
+		w.s.Count("alarms_by_signature/"+sig, 1)
+		if os.Getenv("KEYLAB_VERBOSE") != "" { // development aid only
+			fmt.Printf("  (suppressed) %s: [world %d step %d %s] %s\n", sig, w.spec.ID, w.steps, st.Op, summary)
+		}
 		return
 	}
 	w.s.Violation(sig, fmt.Sprintf("[world %d %s %s/%s step %d %s] %s", w.spec.ID, w.spec.Kind, w.spec.Engine, w.spec.Policy, w.steps, st.Op, summary),
